@@ -55,11 +55,16 @@ package ast
 //@   nosafety
 //@   pure
 //@   at call ast.Node.String#* forbid[operands-printed-through-operandString;C17] false
+// "-1" is the negative literal, not the negation of 1 (the scanner folds a sign
+// that is followed by a digit into the number): a numeric literal operand of a
+// negation is printed in parentheses.
 //@ func (*NegateNode).String
 //@   props C17
 //@   nosafety
+//@   stringsexact
 //@   pure
 //@   at call ast.Node.String#* forbid[operands-printed-through-operandString;C17] false
+//@   ensures[numeric-literal-operand-is-parenthesised;C17] typeis(n.Arg, *IntNode) || typeis(n.Arg, *FloatNode) ==> len(result) >= 3 && result[0] == '-' && result[1] == '('
 //@ func (*StringNode).String
 //@   props C17
 //@   nosafety
